@@ -200,7 +200,9 @@ func (l *alist) encs() []string {
 }
 
 var (
-	intVals = []int64{0, 1, -1, 7, 255, 65, 1114111, math.MinInt64, math.MaxInt64}
+	intVals = []int64{0, 1, -1, 7, 255, 65, 1114111, math.MinInt64, math.MaxInt64,
+		// beyond 32 bits, with and without a valid code point in the low 32 bits
+		1<<32 + 65, 1 << 32, -(1 << 32) + 65, 1<<40 + 0x4e16, math.MaxInt32 + 1, math.MinInt32 - 1}
 	fltVals = []float64{0, math.Copysign(0, -1), 1, 1.5, -2.5, 1e21, 5e-324, math.MaxFloat64,
 		math.NaN(), math.Inf(1), math.Inf(-1), 123456789.125}
 	strVals = []string{"", "a", "héllo", "a\x00b", "\xff", "q\"uo`t'e\n"}
@@ -451,7 +453,7 @@ func excludedApp(a app) string {
 // running one case
 
 type Case struct {
-	Part   string   `json:"part"` // grid | reorder | arb | limit
+	Part   string   `json:"part"` // grid | reorder | pairs | arb | limit
 	Format string   `json:"format"`
 	Args   []string `json:"args"`
 	MaxLen int      `json:"max_string_len,omitempty"` // limit part: tengo.MaxStringLen during the call
@@ -1102,6 +1104,13 @@ var reorderTemplates = []string{
 	"%[2]*.[1]*V", "%*[3]V", "%.*[3]V", "%[99999999]V", "%[1]*", "%[1]", "%.[1]", "x%Vy%%z",
 }
 
+// part 1c: every ordered pair of these directives, joined by "|" (state that
+// must be reset between directives: flags, width, precision, index validity)
+var pairDirectives = []string{
+	"%d", "%s", "%v", "%x", "%c", "%+d", "%3d", "%-4s", "%05d", "%.2f", "%.1s", "%6.2f", "%*d", "%.*f",
+	"%[1]d", "%[2]s", "%[3]v", "%[2]*[1]d", "%[5]d", "%[0]s", "%[x]d", "%[1]2d", "%[", "%!", "%%",
+}
+
 // ---------------------------------------------------------------------------
 // part 2: arbitrary strings over a small alphabet
 
@@ -1362,6 +1371,33 @@ func main() {
 	})...)
 
 	phase("reorder done")
+	// ---- part 1c: ordered pairs of directives
+	var pdirs []string
+	for _, a := range pairDirectives {
+		for _, b := range pairDirectives {
+			f := a + "|" + b
+			if seenR[f] || gridFormats[f] {
+				continue // already a reorder case
+			}
+			seenR[f] = true
+			pdirs = append(pdirs, f)
+		}
+	}
+	const base1c = uint64(1) << 41
+	all = append(all, parallel(len(pdirs), func(w *acc, d int) {
+		w.batch = w.batch[:0]
+		for j, l := range mLists {
+			c := Case{Part: "pairs", Format: pdirs[d], Script: true}
+			res := runCase(&c, l, false)
+			key := base1c + uint64(d)<<20 | uint64(j)
+			w.fold(key, &c, l, &res, (d*5+j)%9973 == 0)
+			if res.errText == "" {
+				w.batch = append(w.batch, bitem{key, c, l, res.got})
+			}
+		}
+		runBatch(w, w.batch)
+	})...)
+	phase("pairs done")
 	// ---- part 2: arbitrary strings
 	nArb := arbCount(arbMax)
 	scriptArb := arbCount(scriptArbLen) // script level: every string of length <= scriptArbLen
@@ -1459,7 +1495,7 @@ func main() {
 		}
 	}
 	var evaluations int64
-	for _, p := range []string{"grid", "reorder", "arb", "limit"} {
+	for _, p := range []string{"grid", "reorder", "pairs", "arb", "limit"} {
 		pc := parts[p]
 		if pc == nil {
 			continue
@@ -1529,12 +1565,13 @@ func main() {
 		"star_values":          enc(alphaS),
 		"filler_values":        enc(alphaX),
 		"reorder_templates":    reorderTemplates,
+		"pair_directives":      pairDirectives,
 		"reorder_values":       enc(alphaM),
 		"arb_alphabet":         arbAlphabet,
 		"arb_max_length":       arbMax,
 		"arb_argument_lists":   arbL,
 		"limit_max_string_len": limits,
-		"script_level":         fmt.Sprintf("every grid and reorder case, arb formats of length <= %d", scriptArbLen),
+		"script_level":         fmt.Sprintf("every grid, reorder and pairs case, arb formats of length <= %d", scriptArbLen),
 	})
 	r.Assume("reference = fmt.Sprintf of the host toolchain (" + runtime.Version() + ") on int64/float64/string/bool/[]byte; the set of (verb, argument, flags, width, precision) applications of a format is read off Go's own parser through fmt.Formatter tracing values")
 	r.Assume("docs/formatting.md defines no Tengo-specific rendering for any verb applied to the five mapped types (it says %v is %t/%d/%g/%s and %T is 'a Go-syntax representation of the type'), so Go's output is the oracle for every verb; no verb uses a documented-Tengo-behaviour oracle")
@@ -1542,13 +1579,13 @@ func main() {
 	r.Assume("the int64(float) conversion Tengo applies to a float used as '*' is the platform's (amd64) for NaN/Inf")
 	r.Assume("limit phase: tengo.MaxStringLen is a process-wide variable; it is changed only between phases while no case is running; a string longer than MaxStringLen returned without error is reported (a string over the limit is not a legal result)")
 
-	pg, pr, pa := parts["grid"], parts["reorder"], parts["arb"]
+	pg, pr, pp, pa := parts["grid"], parts["reorder"], parts["pairs"], parts["arb"]
 	r.Finish(report.Coverage{
-		States:      pg.cases + pr.cases + pa.cases - overlap,
+		States:      pg.cases + pr.cases + pp.cases + pa.cases - overlap,
 		Transitions: calls,
-		Validated:   pg.compared + pr.compared + pa.compared,
+		Validated:   pg.compared + pr.compared + pp.compared + pa.compared,
 		Evaluations: evaluations,
-		Nontrivial:  pg.nontrivial + pr.nontrivial + pa.nontrivial - overlapNontrivial,
-		Rule:        "state = one distinct (format string, argument list): grid = every directive %<flags><width><precision><argindex><verb> x every argument list of length 0..3 from the per-position alphabets; reorder = every template x verb x every list of length 0..3 over reorder_values; arb = every string of length <= arb_max_length over arb_alphabet x arb_argument_lists (cases of grid/reorder that are also arb cases are counted once); the limit phase re-runs the arb cases under a small MaxStringLen and adds no states. transition = one tengo.Format call (direct, isolated re-run for attribution, or inside format()/fmt.sprintf() in a script). validated = cases whose tengo.Format result was compared with fmt.Sprintf inside the equality claim. evaluations = cases executed (all four parts) + scripts run. non-trivial = fmt.Sprintf's output contains no %! error marker",
+		Nontrivial:  pg.nontrivial + pr.nontrivial + pp.nontrivial + pa.nontrivial - overlapNontrivial,
+		Rule:        "state = one distinct (format string, argument list): grid = every directive %<flags><width><precision><argindex><verb> x every argument list of length 0..3 from the per-position alphabets; reorder = every template x verb x every list of length 0..3 over reorder_values; pairs = every ordered pair of pair_directives joined by | (minus those already reorder cases) x the same lists; arb = every string of length <= arb_max_length over arb_alphabet x arb_argument_lists (cases of grid/reorder that are also arb cases are counted once); the limit phase re-runs the arb cases under a small MaxStringLen and adds no states. transition = one tengo.Format call (direct, isolated re-run for attribution, or inside format()/fmt.sprintf() in a script). validated = cases whose tengo.Format result was compared with fmt.Sprintf inside the equality claim. evaluations = cases executed (all four parts) + scripts run. non-trivial = fmt.Sprintf's output contains no %! error marker",
 	})
 }
